@@ -504,6 +504,11 @@ def mon_polygon_api(rng, tier):
         variants.append(('closed', np.array(poly + [poly[0]]), Q))
         variants.append(('translated', P + np.array([16.0, -8.0]), Q + np.array([16.0, -8.0])))
         variants.append(('scaled', P * 4.0, Q * 4.0))
+        # a caller-supplied result vector (documented, for reuse over many polygons) holding stale values from an earlier call
+        stale = np.ones(len(pts), dtype=np.int32)
+        got = quiet(gutils.points_inside_polygon, Q, P, stale)
+        if got.tolist() != exp or stale.tolist() != exp:
+            res.fail('points_inside_polygon with a reused `inside` vector = %r, even-odd rule gives %r' % (got.tolist(), exp), dict(polygon=poly, points=pts, variant='reused inside vector')); continue
         for nm, pp, qq in variants:
             got = quiet(gutils.points_inside_polygon, qq, pp)
             if got.tolist() != exp:
